@@ -3,7 +3,7 @@
      reb_boundary_check, case REB_BOUNDARY_PERIODIC:  while(x> L/2.) x -= L;  while(x< -L/2.) x += L;   per coordinate
      case REB_BOUNDARY_SHEAR: radial while-loops that also shift y by offsetp1/offsetm1 and vy by +-3/2 OMEGA Lx,
          then azimuthal and vertical periodic loops.  offsetp1/offsetm1 involve fmod: oracle arguments.
-     case REB_BOUNDARY_OPEN (no tree, N_active unset): for(i=0;i<N;i++){ if(outside){ particles[i]=particles[N-1]; N--; i--; } }
+     case REB_BOUNDARY_OPEN (no tree; any N_active: since /repo 95ccee5 the unsorted removal is ONE move whatever N_active is): for(i=0;i<N;i++){ if(outside){ particles[i]=particles[N-1]; N--; i--; } }
      case REB_BOUNDARY_OPEN with a tree: the particle is only flagged (y = NaN), index and N are left alone.
    Every C while-loop carries explicit fuel; the theorems state the fuel bound under which the loop exit is the
    C loop exit (guard false) and not fuel exhaustion. *)
@@ -68,7 +68,8 @@ Definition outside1 (L x : T) : bool := nltb N (hi L) x || nltb N x (lo L).
 Definition outside (bx b_y bz : T) (p : T * T * T) : bool :=
   let '(x, y, z) := p in outside1 bx x || outside1 b_y y || outside1 bz z.
 
-(* the removal loop without a tree (N_active unset).  The array is  pre ++ rest  with i = length pre: the
+(* the removal loop without a tree (particle order does not depend on N_active; N_active itself, clamped to N by
+   reb_simulation_remove_particle, is checked by the searcher).  The array is  pre ++ rest  with i = length pre: the
    particles before index i have been examined and kept.  Removing particles[i] = p:
    reb_simulation_remove_particle(r,i,0) does N--; particles[i] = particles[N] (the LAST particle q moves into
    slot i), then the loop does i--, N-- (local) and the for-increment i++: slot i, now holding q, is examined
